@@ -19,8 +19,12 @@ ID = "C16"
 RULE = (
     "histories of Candidate(value, tag) over values {0,1,2,+inf,-inf} and tags {None,a,b}, split into "
     "batches (every composition), for the 2x3 policy pairs, on standalone entries, on cells of 1-3 "
-    "dimensional tables (Dict and List dimensions) and through combine(); bounded-exhaustive by length "
-    "then random longer ones.  A case is non-trivial when at least two candidates tie for the optimum "
+    "dimensional tables (Dict and List dimensions) and through combine(); with model comparison: every "
+    "history up to length 3 (quick) / 4 (thorough) on standalone entries and up to length 2 / 3 (values "
+    "incl. +-inf) on cells, then random ones of length 5-12; thorough tier only: EVERY history of length 5 "
+    "over {0,1,2} x {None,a,b}, on standalone entries under every batching and on a table cell (shape and "
+    "batching rotating), the 2x3 policies, decided on the implementation by the property itself (no model "
+    "run).  Under 'any' tags are compared by membership in the model's 'all' set.  A case is non-trivial when at least two candidates tie for the optimum "
     "or an improving candidate follows a tagged one; distinct = distinct (kind, policies, history).  "
     + c16_table.RULE_TABLE
 )
@@ -289,7 +293,46 @@ def corpus(ctx, res):
     c16_table.corpus_table(ctx, res)
 
 
+EXH5_SHAPES = ["d", "l", "dd", "dl", "ld", "ldd", "dld", "lll"]
+
+
+def exhaustive_scope(ctx, res):
+    """The bounded-exhaustive scope quoted in the property's quantifier, beyond what gen_cases
+    exhausts: every history of length 5 over values {0,1,2} x tags {None,a,b}, the 2x3 policies,
+    on a standalone entry under EVERY batching and on a cell of a 1-3 axis table (shape and batching
+    rotating: with finite values every batch is written, so the batching reaches a cell only through
+    Entry.update).  Decided on the implementation by the property itself (spec_check); no model run."""
+    atoms = [(v, t) for v in VALS for t in TAGS]
+    comps = list(compositions(5))
+    pols = [(m, r) for m, _ in MERGES for r, _ in RETAINS]
+    k = 0
+    for hist in itertools.product(atoms, repeat=5):
+        h = [list(c) for c in hist]
+        n = 0
+        for m, r in pols:
+            k += 1
+            cases = [{"kind": "entry", "merge": m, "retain": r, "batches": split(h, sizes)} for sizes in comps]
+            cases.append({"kind": "cell", "merge": m, "retain": r, "batches": split(h, comps[k % len(comps)]),
+                          "dims": EXH5_SHAPES[k % len(EXH5_SHAPES)]})
+            for case in cases:
+                try:
+                    io = run_impl(case)
+                except Exception as e:
+                    res.violation(f"exception {type(e).__name__}: {e}", case)
+                    continue
+                bad = spec_check(case, io)
+                if bad:
+                    res.violation(bad, case, observed=io)
+            n += len(cases)
+        if len(res.concrete) >= 50:
+            return
+        res.case({"kind": "exhaustive-5", "history": h}, nontrivial({"merge": "min", "batches": [h]}), n=n)
+        res.dist["exhaustive-5/entry(all batchings)+cell"] += n
+
+
 def run(ctx, res):
+    if ctx.thorough:
+        exhaustive_scope(ctx, res)
     batch = []
     for case in gen_cases(ctx):
         batch.append(case)
